@@ -36,7 +36,7 @@ CHECKS = {
         text=("Theorems C07_selection/_coefficients/_equiv/_irredundant/_error (props/C07.v) about model/Poly.v poly_simplify for every "
               "LP oracle meeting lp_spec 0: the result is a sub-sequence of the input with the same coefficients, equivalent in the "
               "context, irredundant, and ValueError implies infeasibility. The model is run inside Coq on the implementation's own "
-              "recorded LP answers and must reproduce its output exactly; C07 is also decided exactly on each implementation output."),
+              "recorded LP answers and must reproduce its output exactly; C07 is also decided exactly on each implementation output. C07_code_*: simplify, reduce_polytope (while loop on proved-sufficient fuel), termlist_to_polytope and polytope_to_termlist as translated from polyhedra.py on this run equal model/Poly.v (T1 tie)."),
         design="4 (C07)", note=NOTE_R),
     "C01": dict(
         technique="Coq proof: algebra theorem over the model regenerated from source (T1) instantiated with the hand-written polyhedral model (T2) + correspondence with LP replay + certified exact oracle",
@@ -96,7 +96,7 @@ CHECKS = {
         text=("Theorems C03_sound/_complete/_false_has_witness/_total/_refl/_sublist/_infeasible_* (props/C03.v) about model/Poly.v "
               "poly_refines for every exact LP oracle, and the contract-level reduction proved on the T1 translation; the "
               "implementation must agree with the model on replayed LP answers and is checked against certified must-True/"
-              "must-False verdicts."),
+              "must-False verdicts. C03_code_*: refines, verify_polytope_containment and is_polytope_empty as translated from polyhedra.py on this run (numpy arrays and linprog as named primitives) equal model/Poly.v (T1 tie)."),
         design="4 (C03)", note=NOTE_R),
     "C04": dict(
         technique="Coq proof about a hand-written executable model + correspondence with LP replay + certified exact oracle",
@@ -152,7 +152,7 @@ CHECKS = {
         text=("Theorems C12_value/_none/_error/_empty_raises/_unbounded_none/_bounds (props/C12.v) about poly_optimize for every exact "
               "total LP oracle: the value is the attained optimum, None exactly when non-empty and unbounded in the requested "
               "direction, ValueError exactly when empty, bounds contain every behaviour; the implementation is replayed through the "
-              "model and compared with an exact rational LP."),
+              "model and compared with an exact rational LP. C12_code_optimize / _get_variable_bounds: optimize and get_variable_bounds as translated from the source on this run equal the model (T1 tie)."),
         design="4 (C12)", note=NOTE_R + " The objective string is parsed by the real grammar (model of the parser: C09)."),
     "C13": dict(
         technique="Coq session-machine theorems by induction over operation lists (partial) + lock-step histories on the real library with deep snapshots, aliasing analysis and fresh-interpreter replay",
@@ -191,7 +191,7 @@ CHECKS = {
               "all inside the slice, sorted by angle around the centroid), C18_degenerate, C18_empty_slice, C18_arguments, sort "
               "permutation/sortedness, unreachable assert (props/C18.v). Qhull and the Chebyshev/fallback LPs are oracles whose "
               "every answer is validated against the verified corners; partial in that sense. The real routine is replayed through "
-              "the model (rows, points, order, error kind) and re-decided against an independent exact polygon computation."),
+              "the model (rows, points, order, error kind) and re-decided against an independent exact polygon computation. C18_code_*: the whole vertex routine (constraints_to_vertices, _substitute_in_termlist, _gen_boundary_constraints, _get_bounding_vertices with the Qhull try and the four fallback LPs, _get_feasible_point) as translated from plots.py on this run equals model/Plots.v over the named Qhull / linprog / norm / sort primitives (T1 tie)."),
         design="4 (C18)", note=NOTE_R + " Qhull/Chebyshev LP are foreign code, modelled by their input/output contract only; the start point of the list depends on float sign noise at the atan2 branch cut (cut_low oracle)."),
 }
 
